@@ -340,9 +340,10 @@ def large_oracle(case):
 
 
 def enum_manyvertices(tier):
-    vs = [63, 64, 65, 127, 128, 129, 255, 256, 257] if tier == "quick" else \
+    vs = [63, 64, 65, 127, 128, 129, 255, 256, 257, 10001, 16385] \
+        if tier == "quick" else \
         [63, 64, 65, 127, 128, 129, 255, 256, 257, 511, 512, 513, 1000,
-         1023, 1024, 1025, 4097]
+         1023, 1024, 1025, 4097, 9999, 10000, 10001, 10050, 16385, 65537]
     for v in vs:
         for shape in ("star", "zigzag"):
             yield {"v": v, "shape": shape}
@@ -355,7 +356,8 @@ def manyvertices_oracle(case):
     v, shape = case["v"], case["shape"]
     if shape == "star":
         ang = 2 * np.pi * np.arange(v) / v
-        rad = np.where(np.arange(v) % 2 == 0, 1000., 400.)
+        big_r = 1000. if v < 3000 else 40. * v
+        rad = np.where(np.arange(v) % 2 == 0, big_r, 0.4 * big_r)
         poly = np.round(np.column_stack([rad * np.cos(ang),
                                          rad * np.sin(ang)]))
     else:
